@@ -28,8 +28,18 @@
   Quiescent points = between operations, i.e. after the environment has carried
   out the instructions of the operation (a sync includes the `ReleasePlayers`
   it triggers).
+
+  LATE RELEASE REPORTS: the last section, "asynchronous releases", proves the same
+  clauses for the system `ASys` (Model/RegulatorAsync.lean) in which `SyncState`
+  and the `ReleasePlayers` report it triggers are SEPARATE operations: the
+  released players leave their table at the sync and are "on the way back" until
+  the table reports them — registrations, status changes, syncs of other tables
+  and of the same table come in between; a table may report in several parts;
+  the table may have been broken meanwhile.  The synchronous system above is the
+  special case "every sync is followed at once by its report"
+  (`sync_then_report_eq_rsys_step`, `rsys_history_is_async`).
 -/
-import Pokerface.Proofs.RegTotal
+import Pokerface.Proofs.RegAsyncProps
 
 namespace Pokerface.C09
 open Pokerface Reg RSys
@@ -345,5 +355,338 @@ example : ((RSys.init 3 0).run minZero).env.members = [(2, [3,4,2]), (3, [5])] :
 
 /-- totality: hypotheses satisfiable, e.g. the sync of table 2 with one elimination after `topUp` -/
 example : ((RSys.init 6 5).run topUp).env.membersOf 2 = some [7,8,9,10,11,12] := by decide
+
+/-! ## asynchronous releases
+
+`ASys` = regulator `r`, the tables that follow it `env` (as before), and `inflight`: the batches
+`(table, players)` of players who have LEFT their table on the regulator's instruction and whose
+`ReleasePlayers` has not been called yet.  Operations: `add`, `status` (as before),
+`sync t elim stay rel keep` (the table eliminates `elim`, calls `SyncState(t, |elim|)`, seats the
+new players, and `rel` — as many as it was told; everybody if it was broken — leave and are from
+now on on the way back; NO `ReleasePlayers` call), and `report t ps rest ch`
+(`ReleasePlayers(t, ps)` for some, usually all, of the players on the way back from `t`).
+`AReachable` = from a fresh regulator with any setting `1 ≤ max`, any `min`, by any sequence of
+operations valid in the sense `ASys.ok`, in any order of statuses.  `ok` does NOT ask a table to
+report before its next sync, nor before other tables sync, nor in one piece.  The totality
+theorems at the end of the section show that `ok` never blocks a history. -/
+
+section Async
+open ASys
+
+/-- **counts_agree**, asynchronous: between any two operations the regulator's player total is
+    the number of alive players (at a table, queued, or on the way back), its table count is the
+    number of its table records and of real tables, and its sheet `(id, PlayerCount)` is exactly
+    the real sheet `(id, number of members)`: players on the way back are NOT counted at the table
+    they left (the regulator discounted them when it asked for the release). -/
+theorem counts_agree_async {s : ASys} (h : AReachable s) :
+    s.r.playerCount = s.env.alive.length ∧
+    s.r.tableCount = s.r.tables.length ∧
+    s.r.tables.length = s.env.members.length ∧
+    s.r.tables.map (fun t => (t.id, t.count)) = s.env.members.map (fun e => (e.1, (e.2.length : Int))) := by
+  have hS := AInv.of_reachable h
+  refine ⟨hS.pc, hS.wf.tc, ?_, hS.sim⟩
+  have := congrArg List.length hS.sim
+  simpa [tview, mview] using this
+
+/-- the regulator's own ledger, asynchronous: its player total is what it has queued, plus what it
+    believes to sit at tables, plus the players on the way back -/
+theorem ledger_async {s : ASys} (h : AReachable s) :
+    s.r.playerCount = s.r.queue.length + ((s.r.tables.map (·.count)).sum) + (s.flying.length : Int) :=
+  (AInv.of_reachable h).cnt
+
+/-- **counts_agree**, per table, asynchronous -/
+theorem count_of_table_async {s : ASys} (h : AReachable s) (t : Nat) :
+    (s.r.findTable t).map (fun tb => tb.count) = (s.env.membersOf t).map (fun ms => (ms.length : Int)) := by
+  have hS := AInv.of_reachable h
+  have := sim_find s.r.tables s.env.members t hS.sim
+  simp only [Reg.findTable, Env.membersOf, Option.map_map]
+  exact this
+
+/-- **conservation**, asynchronous: the alive players are exactly the queue, all table
+    memberships and all batches on the way back together (as multisets), and no id occurs twice. -/
+theorem conservation_async {s : ASys} (h : AReachable s) :
+    s.env.alive.Perm (s.r.queue ++ s.env.seated ++ s.flying) ∧
+    (s.r.queue ++ s.env.seated ++ s.flying).Nodup ∧ s.env.alive.Nodup := by
+  have hS := AInv.of_reachable h
+  exact ⟨hS.cons, hS.cons.nodup_iff.1 hS.nodup, hS.nodup⟩
+
+/-- **exactly one place**, asynchronous: an id is alive iff it is queued, or sits at some table, or
+    is on the way back in some batch; never two of these; and no id occurs twice in the queue,
+    twice at tables, or twice on the way. -/
+theorem exactly_one_place_async {s : ASys} (h : AReachable s) (p : Nat) :
+    (p ∈ s.env.alive ↔ (p ∈ s.r.queue ∨ (∃ e ∈ s.env.members, p ∈ e.2) ∨ (∃ e ∈ s.inflight, p ∈ e.2))) ∧
+    ¬ (p ∈ s.r.queue ∧ ∃ e ∈ s.env.members, p ∈ e.2) ∧
+    ¬ (p ∈ s.r.queue ∧ ∃ e ∈ s.inflight, p ∈ e.2) ∧
+    ¬ ((∃ e ∈ s.env.members, p ∈ e.2) ∧ ∃ e ∈ s.inflight, p ∈ e.2) ∧
+    s.r.queue.Nodup ∧ s.env.seated.Nodup ∧ s.flying.Nodup := by
+  obtain ⟨hperm, hnd, _⟩ := conservation_async h
+  have hseat : p ∈ s.env.seated ↔ ∃ e ∈ s.env.members, p ∈ e.2 := by
+    simp only [Env.seated, List.mem_flatten, List.mem_map]
+    constructor
+    · rintro ⟨l, ⟨e, he, rfl⟩, hp⟩; exact ⟨e, he, hp⟩
+    · rintro ⟨e, he, hp⟩; exact ⟨e.2, ⟨e, he, rfl⟩, hp⟩
+  have hfly : p ∈ s.flying ↔ ∃ e ∈ s.inflight, p ∈ e.2 := by
+    simp only [ASys.flying, List.mem_flatten, List.mem_map]
+    constructor
+    · rintro ⟨l, ⟨e, he, rfl⟩, hp⟩; exact ⟨e, he, hp⟩
+    · rintro ⟨e, he, hp⟩; exact ⟨e.2, ⟨e, he, rfl⟩, hp⟩
+  rw [List.nodup_append] at hnd
+  obtain ⟨hqs, hf, hd1⟩ := hnd
+  rw [List.nodup_append] at hqs
+  obtain ⟨hq, hs, hd2⟩ := hqs
+  refine ⟨?_, ?_, ?_, ?_, hq, hs, hf⟩
+  · rw [hperm.mem_iff, List.mem_append, List.mem_append, hseat, hfly, or_assoc]
+  · rintro ⟨h1, h2⟩
+    exact hd2 p h1 p (hseat.2 h2) rfl
+  · rintro ⟨h1, h2⟩
+    exact hd1 p (List.mem_append_left _ h1) p (hfly.2 h2) rfl
+  · rintro ⟨h1, h2⟩
+    exact hd1 p (List.mem_append_right _ (hseat.2 h1)) p (hfly.2 h2) rfl
+
+/-- **exactly ONE table**, asynchronous: a player sits at one table only, and is on the way back
+    from one table only (in one batch only). -/
+theorem one_table_async {s : ASys} (h : AReachable s) (p : Nat) :
+    (∀ t t' ms ms', s.env.membersOf t = some ms → s.env.membersOf t' = some ms' → p ∈ ms → p ∈ ms' → t = t') ∧
+    (∀ t t', p ∈ s.flyingOf t → p ∈ s.flyingOf t' → t = t') ∧
+    (∀ e ∈ s.inflight, ∀ e' ∈ s.inflight, p ∈ e.2 → p ∈ e'.2 → e = e') := by
+  obtain ⟨_, _, _, _, _, hs, hf⟩ := exactly_one_place_async h p
+  refine ⟨?_, ?_, ?_⟩
+  · intro t t' ms ms' hm hm' hp hp'
+    have := seatedOf_one_entry (m := s.env.members) hs (mem_members_of_membersOf hm)
+      (mem_members_of_membersOf hm') (p := p) hp hp'
+    exact (Prod.mk.inj this).1
+  · intro t t' hp hp'
+    obtain ⟨e, he, rfl, hpe⟩ := mem_flyingOf hp
+    obtain ⟨e', he', rfl, hpe'⟩ := mem_flyingOf hp'
+    rw [seatedOf_one_entry (m := s.inflight) hf he he' hpe hpe']
+  · intro e he e' he' hp hp'
+    exact seatedOf_one_entry (m := s.inflight) hf he he' hp hp'
+
+/-- **the instructions can be followed**, asynchronous: a `SyncState` on an existing table — also
+    one whose earlier releases have not been reported yet — is not refused, and the number of
+    players it asks the table to release is between 0 and what the table has after the
+    eliminations and arrivals. -/
+theorem release_feasible_async {s : ASys} (h : AReachable s) (t : Nat) (ms elim stay : List Nat)
+    (hm : s.env.membersOf t = some ms) (hp : ms.Perm (elim ++ stay)) :
+    (s.syncAnswer t elim).2.1 = none ∧ 0 ≤ (s.syncAnswer t elim).2.2.1 ∧
+    (s.syncAnswer t elim).2.2.1 ≤ ((stay ++ (s.syncAnswer t elim).2.2.2).length : Int) := by
+  obtain ⟨r1, relc, nw, t0, hans, _, _, h0, hle, _⟩ := (AInv.of_reachable h).sync_known t elim stay ms hm hp
+  rw [hans, List.length_append]
+  exact ⟨rfl, h0, by simpa using hle⟩
+
+/-- **handout_once**, asynchronous: in every valid operation, the queue before the operation
+    followed by the players entering it (`incoming`: the registrants / the players whose release
+    is reported) is, IN ORDER, the players returned by `SyncState`, then the players passed to
+    callbacks, then the queue after the operation; and no id occurs twice in that list.  So every
+    id handed out was removed from the queue in this very step, nobody was dropped, nobody is
+    handed out twice or handed out and still queued — in particular a player on the way back is
+    handed out only after his release has been reported. -/
+theorem handout_once_async {s : ASys} (h : AReachable s) (op : AOp) (hok : s.ok op) :
+    s.r.queue ++ s.incoming op = s.returned op ++ handed (s.step op).r.calls ++ (s.step op).r.queue ∧
+    (s.returned op ++ handed (s.step op).r.calls ++ (s.step op).r.queue).Nodup := by
+  have hS := AInv.of_reachable h
+  obtain ⟨hS', hF⟩ := hS.step_full op hok
+  refine ⟨hF.handout, ?_⟩
+  rw [← hF.handout, List.nodup_iff_count]
+  intro a
+  have c1 := hS.cons.count_eq a
+  have c2 := List.nodup_iff_count.1 hS.nodup a
+  simp only [List.count_append] at c1 ⊢
+  cases op with
+  | status st ch => simp only [ASys.incoming, List.count_nil]; omega
+  | sync t elim stay rel keep => simp only [ASys.incoming, List.count_nil]; omega
+  | add ps ch =>
+    simp only [ASys.incoming]
+    split
+    · simp only [List.count_nil]; omega
+    · obtain ⟨hnd, hfresh, _⟩ := hok
+      have c3 := List.nodup_iff_count.1 hnd a
+      by_cases ha : a ∈ ps
+      · have : a ∉ s.env.alive := fun hin => hfresh a ha (hS.sub a hin)
+        have := List.count_eq_zero.2 this
+        omega
+      · have := List.count_eq_zero.2 ha
+        omega
+  | report t ps rest ch =>
+    simp only [ASys.incoming]
+    obtain ⟨hperm, _⟩ := hok
+    have c3 := hperm.count_eq a
+    have c4 := count_seatedOf_filter s.inflight t a
+    rw [flyingOf_eq] at c3
+    rw [flying_eq] at c1
+    simp only [List.count_append] at c3
+    omega
+
+/-- **on the way back**, bookkeeping of one operation: the players on the way after the operation
+    together with those whose release was reported in it are those on the way before together
+    with those who left their table in it (`departing`: the `rel` of a sync on a known table).
+    Nobody else ever gets on or off the way. -/
+theorem on_the_way_async {s : ASys} (h : AReachable s) (op : AOp) (hok : s.ok op) :
+    ((s.step op).flying ++ ASys.reported op).Perm (s.flying ++ s.departing op) :=
+  ((AInv.of_reachable h).step_full op hok).2.flying
+
+/-- in reachable states the regulator knows exactly the tables that exist (a table whose players
+    are all on the way back because it was broken is gone on both sides) -/
+theorem unknown_iff_async {s : ASys} (h : AReachable s) (t : Nat) :
+    s.env.membersOf t = none ↔ s.r.findTable t = none :=
+  (AInv.of_reachable h).unknown_iff t
+
+/-- **unknown_table_refused**, asynchronous system form (the regulator-level statement
+    `unknown_table_refused` holds for ANY regulator state, so also here): a sync naming a
+    non-existing table — e.g. a broken table whose players are still on the way back — leaves
+    regulator, tables and the players on the way unchanged. -/
+theorem unknown_table_refused_async {s : ASys} (h : AReachable s) (t : Nat) (elim stay rel keep : List Nat)
+    (hm : s.env.membersOf t = none) :
+    (s.syncAnswer t elim).2.1 = some .notFoundTable ∧
+    SameState s.r (s.step (.sync t elim stay rel keep)).r ∧
+    (s.step (.sync t elim stay rel keep)).r.calls = [] ∧
+    (s.step (.sync t elim stay rel keep)).env = s.env ∧
+    (s.step (.sync t elim stay rel keep)).inflight = s.inflight := by
+  have hf := (unknown_iff_async h t).1 hm
+  obtain ⟨h1, _, _, h4, h5⟩ := unknown_table_refused s.r t elim.length hf
+  have hstep : s.step (.sync t elim stay rel keep) = { s with r := (s.syncAnswer t elim).1 } := by
+    simp only [ASys.step, hm]
+  rw [hstep]
+  exact ⟨h1, h5, h4, rfl, rfl⟩
+
+/-- **late_registration_refused**, asynchronous system form, for ANY state (reachable or not):
+    the refused registrants are nowhere, nothing changes — also while players are on the way. -/
+theorem late_registration_refused_async (s : ASys) (ps ch : List Nat) (hs : s.r.status = .afterRegDeadline) :
+    (s.r.addPlayers ps ch).2 = some .afterRegDeadline ∧
+    SameState s.r (s.step (.add ps ch)).r ∧ (s.step (.add ps ch)).env = s.env ∧
+    (s.step (.add ps ch)).inflight = s.inflight := by
+  obtain ⟨h1, _, h3⟩ := late_registration_refused s.r ps ch hs
+  refine ⟨h1, ?_⟩
+  simp only [ASys.step]
+  generalize s.r.addPlayers ps ch = q at h1 h3
+  obtain ⟨r', e⟩ := q
+  simp only at h1
+  subst h1
+  exact ⟨h3, rfl, rfl⟩
+
+/-! ### the synchronous system is the special case "report at once" -/
+
+/-- **sync_then_report_eq_rsys_step**: from a state with nobody on the way, the asynchronous script
+    of a synchronous operation (`ASys.expand`: `add ↦ add`, `status ↦ status`,
+    `sync ↦ sync` followed AT ONCE by the `report` of everybody released, when somebody is released
+    or the table was broken) leads to the synchronous successor state, again with nobody on the
+    way.  (For ANY state and operation: a plain computation.) -/
+theorem sync_then_report_eq_rsys_step (s : RSys) (op : EOp) :
+    (ASys.ofRSys s).run (ASys.expand s op) = ASys.ofRSys (s.step op) :=
+  ASys.run_expand s op
+
+/-- the script of a valid synchronous operation is valid asynchronously -/
+theorem sync_then_report_valid (s : RSys) (op : EOp) (hok : s.okAny op) :
+    (ASys.ofRSys s).allOk (ASys.expand s op) :=
+  ASys.allOk_expand s op hok
+
+/-- **every synchronous history is an asynchronous history**: every state of the widest synchronous
+    domain `ReachableAny` is, with nobody on the way, a reachable state of the asynchronous
+    system.  Hence every theorem of this section specialises to the synchronous theorems above
+    (`conservation_of_async` spells one out). -/
+theorem rsys_history_is_async {s : RSys} (h : ReachableAny s) : AReachable (ASys.ofRSys s) :=
+  AReachable.ofRSys h
+
+/-- the synchronous `conservation` re-derived as the special case of `conservation_async` -/
+theorem conservation_of_async {s : RSys} (h : ReachableAny s) :
+    s.env.alive.Perm (s.r.queue ++ s.env.seated) ∧ (s.r.queue ++ s.env.seated).Nodup ∧ s.env.alive.Nodup := by
+  have := conservation_async (rsys_history_is_async h)
+  simpa [ASys.ofRSys, ASys.flying] using this
+
+/-! ### totality: `ASys.ok` never blocks a history -/
+
+/-- every batch of distinct, never registered ids can be registered, whoever is on the way -/
+theorem registration_possible_async {s : ASys} (h : AReachable s) (ps : List Nat) (hnd : ps.Nodup)
+    (hfresh : ∀ p ∈ ps, p ∉ s.env.registered) : ∃ ch, s.ok (.add ps ch) :=
+  h.add_total ps hnd hfresh
+
+/-- the status can be set to ANY status at any time -/
+theorem status_change_possible_async {s : ASys} (h : AReachable s) (st : RStatus) :
+    ∃ ch, s.ok (.status st ch) :=
+  h.status_total st
+
+/-- EVERY table (existing or not, with or without unreported releases) can sync at any time with
+    EVERY split of its members into eliminated and remaining ones, and ANY choice of the players
+    who leave (of exactly the number asked for) is valid. -/
+theorem sync_possible_async {s : ASys} (h : AReachable s) (t : Nat) (elim stay rel keep : List Nat)
+    (hsplit : ∀ ms, s.env.membersOf t = some ms → ms.Perm (elim ++ stay))
+    (hrel : (stay ++ (s.syncAnswer t elim).2.2.2).Perm (rel ++ keep))
+    (hlen : (rel.length : Int) = (s.syncAnswer t elim).2.2.1) :
+    s.ok (.sync t elim stay rel keep) :=
+  h.sync_total_rel t elim stay rel keep hsplit hrel hlen
+
+/-- such a choice of leaving players exists -/
+theorem sync_possible_async' {s : ASys} (h : AReachable s) (t : Nat) (elim stay : List Nat)
+    (hsplit : ∀ ms, s.env.membersOf t = some ms → ms.Perm (elim ++ stay)) :
+    ∃ rel keep, s.ok (.sync t elim stay rel keep) :=
+  h.sync_total t elim stay hsplit
+
+/-- **the report can arrive at any time**: in every reachable state, for every table id (also a
+    table broken meanwhile) and every part `ps` of the players on the way back from it — all, some
+    or none — `ReleasePlayers(t, ps)` is a valid operation for some dispatch choices. -/
+theorem report_possible_async {s : ASys} (h : AReachable s) (t : Nat) (ps rest : List Nat)
+    (hsplit : (s.flyingOf t).Perm (ps ++ rest)) : ∃ ch, s.ok (.report t ps rest ch) :=
+  h.report_total t ps rest hsplit
+
+/-! ### non-vacuity -/
+
+private def rg (n k : Nat) : List Nat := (List.range k).map (· + n)
+
+/-- 27 registrants at 9/6 (tables 1, 2, 3 of nine); table 2 loses six players.  Then
+    table 1 syncs and is told to release two players (1 and 2 leave: on the way back);
+    table 3 syncs with one elimination and is told to release one (20 leaves);
+    players 28, 29 register and are dispatched to table 2;
+    only now table 1's report arrives: 1 and 2 are dispatched to table 2.  Player 20 is still on
+    the way. -/
+def lateReport : List AOp :=
+  [.add (rg 1 27) [], .status .normal [], .sync 2 [10,11,12,13,14,15] [16,17,18] [] [16,17,18],
+   .sync 1 [] (rg 1 9) [1,2] (rg 3 7),
+   .sync 3 [19] (rg 20 8) [20] (rg 21 7),
+   .add [28,29] [2],
+   .report 1 [1,2] [] [2]]
+
+example : AReachable ((ASys.init 9 6).run lateReport) :=
+  (AReachable.init 9 6 (by decide)).run lateReport (by decide)
+/-- between the syncs and the report: two batches on the way, counted in the regulator's total (20 = 17 at
+    tables + 3 on the way), not counted at their tables -/
+example : ((ASys.init 9 6).run (lateReport.take 5)).inflight = [(1, [1,2]), (3, [20])] := by decide
+example : ((ASys.init 9 6).run (lateReport.take 5)).r.playerCount = 20 := by decide
+example : ((ASys.init 9 6).run (lateReport.take 5)).r.tables.map (fun t => (t.id, t.count)) =
+    [(1, 7), (2, 3), (3, 7)] := by decide
+/-- the registration in between is dispatched while players are on the way -/
+example : ((ASys.init 9 6).run (lateReport.take 6)).r.calls = [.assign 2 [28, 29]] := by decide
+/-- the late report: the released players are handed out now -/
+example : ((ASys.init 9 6).run lateReport).r.calls = [.assign 2 [1, 2]] := by decide
+example : ((ASys.init 9 6).run lateReport).env.members =
+    [(1, [3,4,5,6,7,8,9]), (2, [16,17,18,28,29,1,2]), (3, [21,22,23,24,25,26,27])] := by decide
+example : ((ASys.init 9 6).run lateReport).inflight = [(3, [20])] := by decide
+example : ((ASys.init 9 6).run lateReport).r.playerCount = 22 := by decide
+/-- this history is NOT a synchronous one: somebody is on the way at its end -/
+example : ((ASys.init 9 6).run lateReport).flying ≠ [] := by decide
+
+/-- further: table 3 syncs AGAIN before its report (three eliminations); table 1 is broken (its
+    three remaining players leave); table 1 — which no longer exists — reports in two parts, with
+    table 3's report in between. -/
+def lateReport2 : List AOp := lateReport ++
+  [.sync 3 [21,22,23] (rg 24 4) [] (rg 24 4),
+   .sync 1 [3,4,5,6] [7,8,9] [7,8,9] [],
+   .report 1 [8] [7,9] [3], .report 3 [20] [] [3], .report 1 [9,7] [] [2,3]]
+
+example : AReachable ((ASys.init 9 6).run lateReport2) :=
+  (AReachable.init 9 6 (by decide)).run lateReport2 (by decide)
+example : ((ASys.init 9 6).run (lateReport2.take 9)).inflight = [(3, [20]), (1, [7,8,9])] := by decide
+example : ((ASys.init 9 6).run (lateReport2.take 9)).env.membersOf 1 = none := by decide
+example : ((ASys.init 9 6).run (lateReport2.take 10)).inflight = [(3, [20]), (1, [7,9])] := by decide
+example : ((ASys.init 9 6).run lateReport2).env.members =
+    [(2, [16,17,18,28,29,1,2,9]), (3, [24,25,26,27,8,20,7])] := by decide
+example : ((ASys.init 9 6).run lateReport2).inflight = [] := by decide
+/-- `release_feasible_async` with players on the way: table 2 is told to release one -/
+example : (((ASys.init 9 6).run (lateReport2.take 8)).syncAnswer 2 []).2.2.1 = 1 := by decide
+/-- a synchronous history, expanded: the sync of table 2 of `rebalance` becomes sync + report -/
+example : ASys.expand ((RSys.init 9 6).run (rebalance.take 3)) (rebalance.getD 3 (.status .normal [])) =
+    [.sync 2 [] [10,11,12,13,14,15,16,17,18] [10,11] [12,13,14,15,16,17,18], .report 2 [10,11] [] [1]] := by
+  decide
+
+end Async
 
 end Pokerface.C09
